@@ -23,7 +23,7 @@ TNext ==
               /\ (e.v < 0) => Viol("C15: an operation returned a partially written (torn) value")
               /\ IF n = {} /\ lin # {} THEN Viol("C15: history not linearizable at return of " \o e.o \o " = " \o ToString(e.v)) /\ lin' = {} ELSE lin' = n
               /\ ops' = [ops EXCEPT ![e.t] = NoOp]
-         [] e.k \in {"deadlock", "budget"} -> Viol("C15: an operation never completes (deadlock)") /\ UNCHANGED <<lin, ops>>
+         [] e.k \in {"deadlock", "budget"} -> Viol("C15: an operation never completes (deadlock; C20: a lock is still held after user code threw)") /\ UNCHANGED <<lin, ops>>
          [] e.k \in {"crash", "terminate", "escaped"} -> Viol("C15: crash") /\ UNCHANGED <<lin, ops>>
          [] OTHER -> UNCHANGED <<lin, ops>>
     /\ Mark(l)
